@@ -256,3 +256,53 @@ class C12(E1Prop):
 
     def harnesses(self, tier):
         return [H("prop_C12", "prop_C12.cpp", shards=16)]
+
+
+# ---------------------------------------------------------------------------------------------- engine E2 (zoo)
+from . import zoo  # noqa: E402
+
+ENGINES.append({"name": "E2", "path": "vlib/stackgen.py + vlib/zoo.py + harness/zoo/", "serves_properties": [],
+                "kind_free_text": "seeded stack-grammar generator, one generated TU per stack, generic public-API adapter, reference interpreter "
+                                  "(no covfie include) evaluating the generator's own descriptor, rapidcheck driver"})
+
+
+class ZooProp(E1Prop):
+    engine = "E2"
+    mode = None
+    shards = 16
+
+    def stacks(self, tier, seed):
+        st, missing = zoo.quick_stacks(seed)
+        if missing:
+            raise core.InfraError(f"stack cover misses adjacent pairs {missing}")
+        return st
+
+    def harnesses(self, tier, seed=1):
+        return [zoo.ZooH("zoo_" + self.mode, self.stacks(tier, seed), self.mode, shards=self.shards)]
+
+    def check(self, tier, seed):
+        return e1.check(self.pid, tier, seed, self.harnesses(tier, seed), self.level, self.rule, self.assumptions, min_eval=self.min_eval,
+                        extra_cov={"stacks": len(self.stacks(tier, seed))})
+
+    def replay(self, path):
+        import json as _j
+        seed = _j.load(open(path)).get("stack_seed", 1)
+        return e1.replay(self.pid, self.harnesses("quick", seed), path)
+
+    def setup(self):
+        e1.build_all(self.harnesses("quick", 1))
+
+
+@prop("C02")
+class C02(ZooProp):
+    pid = "C02"
+    mode = "C02"
+    rule = ("cases = (stack from the layer grammar [pairwise cover of adjacent layer kinds, depth <= 5, N and M in 1..4 independent, all scalar types], "
+            "configurations generated inside-out so the in-domain region of every layer is known, storage contents in +-2^10, 6 coordinates from the "
+            "outermost region on the dyadic grid). Oracle: field_view::at (vector and variadic form) == reference interpreter applied to the "
+            "generator's descriptor, exact equality; the interpreter refuses (counted, not compared) any case whose intermediates are not exactly "
+            "representable. evaluations count coordinates; non-trivial = some wrapper acted (clamped / default returned / permuted / cast changed / "
+            "interpolated / affine moved / N != M); distinct by (stack, configuration, contents, coordinate)")
+    min_eval = 5000
+    level_text = ("Generated stacks x generated inputs against an independent reference interpreter with exact equality on a domain where all "
+                  "arithmetic is exact; adjacency-pair coverage of the grammar in the quick tier.")
